@@ -317,8 +317,134 @@ def _eliminate_views(fn: ast.AST) -> None:
         # the binding itself stays (now unused): harmless
 
 
+def _simple_arg(e: ast.AST) -> bool:
+    if isinstance(e, (ast.Name, ast.Constant)):
+        return True
+    if isinstance(e, ast.Attribute):
+        return _simple_arg(e.value)
+    return False
+
+
+def _statement_helper(fn: ast.AST) -> bool:
+    """A private procedure of at most three simple statements (calls, one-level ifs) that returns
+    nothing and stores nothing but locals: calling it as a statement equals executing its body."""
+    if not isinstance(fn, ast.FunctionDef) or not fn.name.startswith("_") or fn.name.startswith("__"):
+        return False
+    if any(not (isinstance(d, ast.Name) and d.id == "staticmethod") for d in fn.decorator_list):
+        return False
+    a = fn.args
+    if a.vararg or a.kwarg or a.kwonlyargs or a.posonlyargs or a.defaults:
+        return False
+    body = [s for s in fn.body if not (isinstance(s, ast.Expr) and isinstance(s.value, ast.Constant))]
+    if not (1 <= len(body) <= 3):
+        return False
+
+    def ok(stmts, depth):
+        for s in stmts:
+            if isinstance(s, ast.Expr) and isinstance(s.value, ast.Call):
+                continue
+            if isinstance(s, ast.If) and depth == 0 and ok(s.body, 1) and ok(s.orelse, 1):
+                continue
+            if isinstance(s, (ast.Pass, ast.Assert)):
+                continue
+            if isinstance(s, ast.With) and all(it.optional_vars is None for it in s.items) and ok(s.body, depth):
+                continue
+            return False
+        return True
+
+    if not ok(body, 0):
+        return False
+    for n in ast.walk(fn):
+        if isinstance(n, (ast.Yield, ast.YieldFrom, ast.Await, ast.Lambda, ast.NamedExpr, ast.Return)) or (isinstance(n, (ast.FunctionDef, ast.ClassDef)) and n is not fn):
+            return False
+        if isinstance(n, ast.Name) and isinstance(n.ctx, ast.Store):
+            return False
+        if isinstance(n, ast.Call) and isinstance(n.func, ast.Attribute) and isinstance(n.func.value, ast.Name) and n.func.attr == fn.name:
+            return False  # recursive
+    return True
+
+
+def _inline_statement_helpers(tree: ast.Module) -> None:
+    """Source normal form: `self._helper(a, b)` as a statement, `_helper` a statement helper of the
+    same class (or `_helper(a)` of the same module), is replaced by the helper's body with the
+    parameters replaced by the (simple) argument expressions."""
+    import copy
+
+    def subst(body, mapping):
+        class _S(ast.NodeTransformer):
+            def visit_Name(self, n):
+                if isinstance(n.ctx, ast.Load) and n.id in mapping:
+                    return ast.copy_location(copy.deepcopy(mapping[n.id]), n)
+                return n
+
+        return [_S().visit(copy.deepcopy(s)) for s in body if not (isinstance(s, ast.Expr) and isinstance(s.value, ast.Constant))]
+
+    def process(owner_body, helpers, is_class, overridden=frozenset()):
+        for fn in [n for n in owner_body if isinstance(n, ast.FunctionDef)]:
+            for _round in range(2):
+                changed = False
+                for par in list(ast.walk(fn)):
+                    for fld in ("body", "orelse", "finalbody"):
+                        lst = getattr(par, fld, None)
+                        if not isinstance(lst, list):
+                            continue
+                        new = []
+                        for st in lst:
+                            rep = None
+                            if isinstance(st, ast.Expr) and isinstance(st.value, ast.Call) and not st.value.keywords and all(_simple_arg(x) for x in st.value.args):
+                                c = st.value
+                                h = None
+                                recv = None
+                                if is_class and isinstance(c.func, ast.Attribute) and isinstance(c.func.value, ast.Name) and fn.args.args and c.func.value.id == fn.args.args[0].arg:
+                                    h = helpers.get(c.func.attr)
+                                    recv = c.func.value
+                                elif not is_class and isinstance(c.func, ast.Name):
+                                    h = helpers.get(c.func.id)
+                                if h is not None and h is not fn and h.name not in overridden:
+                                    params = [a.arg for a in h.args.args]
+                                    static = any(isinstance(d, ast.Name) and d.id == "staticmethod" for d in h.decorator_list)
+                                    args = list(c.args)
+                                    if is_class and not static:
+                                        args = [recv] + args
+                                    if len(params) == len(args):
+                                        rep = subst(h.body, dict(zip(params, args)))
+                                        for r in rep:
+                                            for x in ast.walk(r):
+                                                if not hasattr(x, "lineno") or True:
+                                                    pass
+                            if rep is not None:
+                                new.extend(rep)
+                                changed = True
+                            else:
+                                new.append(st)
+                        lst[:] = new
+                if not changed:
+                    break
+
+    mod_helpers = {n.name: n for n in tree.body if isinstance(n, ast.FunctionDef) and _statement_helper(n)}
+    if mod_helpers:
+        process(tree.body, mod_helpers, False)
+        for cls in [n for n in tree.body if isinstance(n, ast.ClassDef)]:
+            process(cls.body, mod_helpers, False)
+    # names defined in more than one class of the module may be overridden: leave those alone
+    counts: dict[str, int] = {}
+    for cls in [n for n in ast.walk(tree) if isinstance(n, ast.ClassDef)]:
+        for n in cls.body:
+            if isinstance(n, ast.FunctionDef):
+                counts[n.name] = counts.get(n.name, 0) + 1
+    dup = frozenset(k for k, v in counts.items() if v > 1)
+    for cls in [n for n in ast.walk(tree) if isinstance(n, ast.ClassDef)]:
+        helpers = {n.name: n for n in cls.body if isinstance(n, ast.FunctionDef) and _statement_helper(n)}
+        if helpers:
+            process(cls.body, helpers, True, dup)
+
+
 def normalise_tree(tree: ast.Module) -> ast.Module:
     tree = _Unroll().visit(tree)
+    try:
+        _inline_statement_helpers(tree)
+    except Exception:  # noqa: BLE001 - optional normal form
+        pass
     for n in list(ast.walk(tree)):
         if isinstance(n, (ast.FunctionDef, ast.AsyncFunctionDef)):
             try:
